@@ -5,7 +5,7 @@ import ast
 from .. import AnalysisError
 from ..cfg import ALL_KINDS, NORMAL_KINDS, iter_own
 from ..guards import canon
-from ..lib import _single_return, attr_stores, collections_from, dominated_by, guard_forms, key_of, norm, render, type_is
+from ..lib import _single_return, attr_stores, collections_from, inlined_expr, dominated_by, guard_forms, key_of, norm, render, type_is
 from ..report import describe, rule
 
 P = "C06"
@@ -189,7 +189,7 @@ def c06_5(ctx, r):
                     f"the group whose max_nodes bounds the queue is `{src}`, not one of self._submission_groups (built from cluster.config.submission_groups): after `resubmit-jobs -s` lowered max_nodes "
                     "the submitter still uses the value stored in config.json and exceeds the limit", "at most max-nodes")
     sg = [ctx.stmt_of(init, node) for f2, node, attr, t, kind in attr_stores(ctx, {"_submission_groups"}) if f2 is init]
-    oksg = len(sg) == 1 and isinstance(sg[0], ast.Assign) and isinstance(sg[0].value, ast.Call) and ctx.src(sg[0].value.func).endswith("make_submission_group_lookup") and render(ctx, init, sg[0].value.args[0]) == "<ClusterConfig.submission_groups>"
+    oksg = len(sg) == 1 and isinstance(sg[0], ast.Assign) and isinstance(sg[0].value, ast.Call) and ctx.src(sg[0].value.func).endswith("make_submission_group_lookup") and render(ctx, init, inlined_expr(ctx, init, sg[0].value.args[0])) == "<ClusterConfig.submission_groups>"
     r.check(oksg, "_submission_groups = lookup over ClusterConfig.submission_groups", key_of(init, "_submission_groups source"), init.loc(), f"_submission_groups is built from {[ctx.src(x.value) for x in sg if isinstance(x, ast.Assign)]}")
     for f2, node, attr, t, kind in attr_stores(ctx, {"_max_nodes"}):
         r.check(f2 is init, f"_max_nodes written in {f2.short}", key_of(f2, "writes _max_nodes"), f2.loc(node), f"{f2.short} changes HpcSubmitter._max_nodes")
